@@ -160,13 +160,17 @@ CHECKS["C07"] = dict(
   text="Interval core proved: the real nested functions reduce_ranges, reduce_chars (of __or) and subtract_ranges (of __sub) are "
        "verified against contracts over the ABSTRACT VIEW (denoted set of code points) with loop invariants over lists-as-maps - "
        "view preserved / equals V(R1) minus V(R2), well-formedness lo <= hi, chr()/index obligations - for range lists of ANY length, "
-       "ALL code points and any element order (set parameters are lists in arbitrary order). The text layer around them (class text "
-       "re-parsing and printing, __chars_to_ranges, __invert__, the orchestration of __or/__sub incl. EmptyClassException and the "
-       "type-mix exceptions) is checked only by the bounded stand-ins B2/B3 (39-class pool, all pairs, nested expressions, several "
-       "hash seeds) - that part is exploration and is what a reader must discount.",
+       "ALL code points and any element order (set parameters are lists in arbitrary order). The core operations __or and __sub "
+       "themselves are proved over abstract item sets (their denotation): the result lists exactly the union / difference of what "
+       "the operands list, EmptyClassException iff nothing is left, type-mix and global-word-character exceptions iff documented, "
+       "Any absorbs; the operator methods (__or__, __ror__, __sub__, __rsub__, ~) are proved to convert single characters / tokens "
+       "to singleton classes, keep the operand order and raise the documented exception otherwise. What a bracket text lists "
+       "(class text re-parsing and printing: __extract_classes, __modify_classes, __process, __chars_to_ranges) is ASSUMED in those "
+       "proofs (uninterpreted TV(text) with three stated contracts) and checked only by the bounded stand-ins B2/B3 (39-class pool, "
+       "all pairs, nested expressions, several hash seeds) - that part is exploration and is what a reader must discount.",
   note="E3/E6/E7 encodings; assumed contract of __split_range; R7; quantified VCs discharged by z3 (sets as predicates with "
        "triggers, equalities as two skolemised inclusions); obligations.lock marks regressions of quantified obligations.",
-  technique="contract-based deductive verification with loop invariants over an abstract set view (z3, quantifiers) for the interval functions; labelled bounded stand-ins for the class text layer",
+  technique="contract-based deductive verification with loop invariants over an abstract set view (z3, quantifiers) for the interval functions, the core operations and the operator methods; labelled bounded stand-ins for the class text layer",
   design_ref="DESIGN.md section 8 (C07), Appendix B.3")
 LANGNOTE = ("Relative to R3,R4,R6,R7 about re, CPython's parser as reader of the pattern, the rx2smt translator (cross-checked "
             "against re on sampled texts each run), z3's regex theory and the derivative-product decision procedure (both back "
